@@ -93,3 +93,27 @@ FRONTIER_RESET_ENSURES = """
             final(self).front() is None,
             final(self).entries().dom() == old(self).entries().dom(),
             forall|c: Coord| final(self).entries().contains_key(c) ==> (#[trigger] final(self).entries()[c]) is None,"""
+
+
+# ---- the inspectors of StreamElement (src/operator/mod.rs), each under its own contract; a unit includes them so that a
+# function under contract may call them (a call to a function without contract would make the caller's failures undecided)
+def stream_element_inspectors(x, FO='src/operator/mod.rs'):
+    tk = x.method(FO, 'StreamElement', 'take'); tk.name_result('r')
+    tk.add_spec('''        ensures
+            (self is Item || self is Timestamped) ==> r == StreamElement::<()>::Item(()),
+            (self matches StreamElement::Watermark(w) ==> r == StreamElement::<()>::Watermark(*w)),
+            self is Terminate ==> r is Terminate, self is FlushAndRestart ==> r is FlushAndRestart, self is FlushBatch ==> r is FlushBatch,   // #obl:element.take_keeps_the_kind
+''')
+    va = x.method(FO, 'StreamElement', 'value'); va.name_result('r')
+    va.add_spec('''        ensures
+            (self matches StreamElement::Item(v) ==> r == Some(v)),
+            (self matches StreamElement::Timestamped(v, _) ==> r == Some(v)),
+            !(self is Item || self is Timestamped) ==> r is None,                                            // #obl:element.value_is_the_payload_of_data_elements
+''')
+    ts = x.method(FO, 'StreamElement', 'timestamp'); ts.name_result('r')
+    ts.add_spec('''        ensures
+            (self matches StreamElement::Timestamped(_, t) ==> r == Some(t)),
+            (self matches StreamElement::Watermark(t) ==> r == Some(t)),
+            !(self is Watermark || self is Timestamped) ==> r is None,                                       // #obl:element.timestamp_of_timestamped_and_watermark
+''')
+    return ["impl<Out> StreamElement<Out> {", tk, va, ts, "}"]
